@@ -51,6 +51,7 @@ INV_ITEMS = "INVARIANT EncIsCanonical\nINVARIANT DecEncIdentity"
 INV_BYTES = "INVARIANT CanonicalIsEnc\nINVARIANT DecEncIdentity"
 INV_TYPED = "INVARIANT TypedSelfCheck\nINVARIANT EncCSound\nCONSTRAINT DesignCex"
 INV_SEQ = "INVARIANT SeqSound"
+INV_API = "INVARIANT ApiSound"
 INV_BIG = "INVARIANT BigSound"
 
 DUMMY_SEED = '{"ty":"Hash","k":0,"b":[128],"nodes":[1]}\n'
@@ -118,9 +119,9 @@ def specials():
 def params(ctx):
     if ctx.quick:
         return dict(items_large=False, nv=3, nodecap=8, seeds_k=3, seed_nodes=8, rnd=10, items_sample=4000, pairk=1,
-                    big_sizes=[65536, 262148], seqdepth=3, enc_k=2)
+                    big_sizes=[65536, 262148], seqdepth=3, enc_k=2, apidepth=5)
     return dict(items_large=True, nv=7, nodecap=1000, seeds_k=10, seed_nodes=30, rnd=40, items_sample=150000, pairk=4,
-                big_sizes=[65536, 262148, 1048576], seqdepth=4, enc_k=3)
+                big_sizes=[65536, 262148, 1048576], seqdepth=4, enc_k=3, apidepth=6)
 
 
 def printed_cases(res):
@@ -181,6 +182,14 @@ def generate(ctx):
         raise vlib.Undecided("specification self-check failed (%s in %s)" % (ms.violated, ms.dir))
     seqs = [v for v in ms.printed if isinstance(v, dict) and v.get("kind") == "Q"]
     seqbehs = [{"ty": v["ty"], "gen": None, "rnd": 0, "cases": [], "seq": {"ty": v["ty"], "init": v["init"], "ops": v["ops"]}} for v in seqs]
+    # M/G: sequences of calls of the encoder entry points (shared buffer pool)
+    ma = ctx.tlc_must("Rlp", CFG % dict(dev=DEVIATIONS, scope="api", large="FALSE", nv=1, nodecap=1, pairk=0, seqdepth=p["apidepth"], maxmut=0,
+                                        invs=INV_API), name="M_api", files=seedfile, timeout=1500, xss="512m")
+    if ma.violated:
+        raise vlib.Undecided("specification self-check failed (%s in %s)" % (ma.violated, ma.dir))
+    apis = [v for v in ma.printed if isinstance(v, dict) and v.get("kind") == "A"]
+    seqbehs += [{"ty": "api", "gen": None, "rnd": 0, "cases": [], "api": {"ops": v["ops"], "vals": v["vals"]}} for v in apis]
+    ctx.cov["encoder_api_sequences"] = {"sequences": len(apis), "depth": p["apidepth"]}
     ctx.cov["stateful_sequences"] = {"sequences": len(seqs), "depth": p["seqdepth"], "types": sorted({v["ty"] for v in seqs})}
     sp = specials()
     ctx.cov["generic_cases"] = {"byte_strings": len(generic), "items": len(items), "items_enumerated": mi.distinct, "large_inputs": len(sp)}
@@ -197,7 +206,7 @@ def generate(ctx):
                       name="MG_typed", files={"seeds.ndjson": seedtext}, timeout=3000, xss="512m", coverage=not ctx.quick)
     if mt.violated:
         raise vlib.Undecided("specification self-check failed (%s in %s)" % (mt.violated, mt.dir))
-    ctx.cov["exhaustive"] = mi.ok and mb.ok and mt.ok and mg.ok and ms.ok
+    ctx.cov["exhaustive"] = mi.ok and mb.ok and mt.ok and mg.ok and ms.ok and ma.ok
     if getattr(mt, "zero_actions", None):
         ctx.cov["coverage_zero_actions"] = mt.zero_actions
     # design-level counterexamples: replayed first
@@ -258,6 +267,7 @@ def judge(ctx, behs, selftest_too=False):
     trace = ctx.path("trace.ndjson")
     info = ctx.drive("rlp", trace, behaviours=bpath, timeout=1800, max_restarts=2000)
     ncases = sum(len(b["cases"]) + b.get("rnd", 0) + len(b.get("big", [])) + (len(b["seq"]["ops"]) if b.get("seq") else 0)
+                 + (len(b["api"]["ops"]) if b.get("api") else 0)
                  + sum(len(x["ls"]) for x in b.get("enc", [])) for b in behs)
     ctx.cov["traces_validated_against_impl"] += len(behs)
     ctx.cov["evaluations"] += ncases
